@@ -64,8 +64,11 @@ fn check_return_stat(
         let mut return_expr_types = infos.iter().map(|(typ, _)| typ.clone()).collect::<Vec<_>>();
         // 解决 setmetatable 的返回值类型问题
         let setmetatable_index = has_setmetatable(semantic_model, return_stat);
-        if let Some(setmetatable_index) = setmetatable_index {
-            return_expr_types[setmetatable_index] = LuaType::Any;
+        // the inferred list can be shorter than the expression list (`return ..., setmetatable(`)
+        if let Some(setmetatable_index) = setmetatable_index
+            && let Some(return_expr_type) = return_expr_types.get_mut(setmetatable_index)
+        {
+            *return_expr_type = LuaType::Any;
         }
         let return_expr_ranges = infos.iter().map(|(_, range)| *range).collect::<Vec<_>>();
         (return_expr_types, return_expr_ranges)
